@@ -64,37 +64,27 @@ def text_of(codes):
 
 
 def kinds(codes, env):
-    """Which constructs an input contains (coarse, for finding keys)."""
+    """The most specific construct an input contains (coarse on purpose: one key per construct class and failure class)."""
     s = "".join(chr(c) for c in codes)
-    ks = []
-    if "~" in s:
-        ks.append("tilde")
-    if s.endswith("\\") and not s.endswith("\\\\"):
-        ks.append("backslash-last")
-    elif "\\" in s:
-        ks.append("escape")
-    for m in re.finditer(r"\$(\{[^}]*\}?|\([^)]*\)?|[A-Za-z0-9_]*)", s):
+    if s.endswith("\\") and (len(s) - len(s.rstrip("\\"))) % 2 == 1:
+        return "backslash-last"
+    m = re.search(r"\$(\{[^}]*\}?|\([^)]*\)?|[A-Za-z0-9_]*)", s)
+    if m:
         g = m.group(1)
         form = "brace" if g[:1] == "{" else "paren" if g[:1] == "(" else "bare"
-        closed = form == "bare" or g[-1:] in "})" and len(g) >= 2
-        name = g.strip("{}()")
-        val = dict(env).get(name, "")
-        k = "$%s-%s" % (form, ("set" if val else "unset") if closed else "open")
-        if m.start() > 0 and form == "bare" and val:
-            k += "-at>0"
-        if k not in ks:
-            ks.append(k)
-    for m in re.finditer(r"%([A-Za-z]*)(\(?)", s):
+        closed = form == "bare" or (g[-1:] in "})" and len(g) >= 2)
+        val = dict(env).get(g.strip("{}()"), "")
+        return "$%s-%s%s" % (form, ("set" if val else "unset") if closed else "open", "-at>0" if m.start() > 0 else "")
+    m = re.search(r"%([A-Za-z]*)(\(?)", s)
+    if m:
         nm = m.group(1).lower()
-        k = ("call-" + nm) if (m.group(2) and nm in ("get", "put", "version", "appname", "random")) else \
-            ("percent-last" if m.end() == len(s) and not m.group(1) else "percent-other")
-        if k not in ks:
-            ks.append(k)
-    if "'" in s:
-        ks.append("squote")
-    if '"' in s:
-        ks.append("dquote")
-    return "+".join(ks) or "plain"
+        if m.group(2) and nm in ("get", "put", "version", "appname", "random"):
+            return "call-" + nm
+        return "percent-last" if s.endswith("%") else "percent-other"
+    for ch, k in (("~", "tilde"), ("\\", "escape"), ("'", "squote"), ('"', "dquote")):
+        if ch in s:
+            return k
+    return "plain"
 
 
 def keyfn(variant, e, f):
@@ -133,12 +123,82 @@ def has_put(codes):
     return "%put" in "".join(chr(c) for c in codes).lower()
 
 
+GROUPS = [["esc", "dol1", "dol2", "mix"], ["til", "pg", "call"]]
+
+
+def split_cfgs(ctx, cfg):
+    """The committed cfg names all alphabets; for wall time it is run as two TLC processes (2 workers each) over disjoint
+    alphabet groups.  The groups share only the empty store, so the union of the emitted edges is the edge set of the whole."""
+    from vlib.tlc import SPEC
+    txt = open(os.path.join(SPEC, cfg)).read()
+    m = re.search(r"^\s*Sel = \{([^}]*)\}\s*$", txt, re.M)
+    if not m:
+        raise Broken("no Sel line in " + cfg)
+    sel = [w.strip().strip('"') for w in m.group(1).split(",")]
+    out = []
+    for k, grp in enumerate(GROUPS):
+        mine = [a for a in sel if a in grp]
+        if not mine:
+            continue
+        p = os.path.join(ctx.rundir, "%s.part%d.cfg" % (cfg[:-4], k))
+        with open(p, "w") as f:
+            f.write(txt[:m.start()] + "  Sel = {%s}\n" % ", ".join('"%s"' % a for a in mine) + txt[m.end():])
+        out.append((p, mine))
+    if sorted(a for _, g_ in out for a in g_) != sorted(sel):
+        raise Broken("alphabet groups do not cover Sel of " + cfg)
+    return out
+
+
+def classify(e):
+    """Which scanner actions an emitted edge must have gone through (python-side vacuity evidence for the replayed edges)."""
+    s = "".join(chr(c) for c in e["args"][1])
+    r = e["ret"]
+    acts = set()
+    if not r["claimed"]:
+        acts.add({"unknown-percent": "OpUnknownPercent", "percent-inside-single": "OpPercentInSingle",
+                  "single-quote-inside-double": "OpSingleInDouble", "unterminated-call": "OpCallOpen",
+                  "unterminated-env-ref": "OpEnvRefOpen"}.get(r["why"], "GiveUp:" + r["why"]))
+        return acts
+    acts.add("OpFinish")
+    if len(r["outs"]) > 1 and s.endswith("\\"):
+        acts.add("OpEscapeAtEnd")
+    if "~" in s:
+        acts.add("OpTilde")
+    if re.search(r"[^~\\%`$\"']", s):
+        acts.add("OpPlain")
+    if '"' in s or "'" in s:
+        acts.add("OpQuote")
+    if "%" in s:
+        acts.add("OpCall")
+        acts.add("OpReturn")
+    if "\\" in s and "'" not in s and not s.endswith("\\"):
+        acts.add("OpEscape")
+    if re.match(r"^[^'\\]*'[^'\\]*\\[^']", s):
+        acts.add("OpEscapeInSingle")
+    if "$" in s and "'" not in s:
+        acts.add("OpEnvRef")
+    if re.match(r"^[^'\\]*'[^'\\]*\$", s):
+        acts.add("OpDollarInSingle")
+    return acts
+
+
 def tlc_edges(ctx, cfg):
-    """Exhaustive TLC run with edge emission.  Unclaimed results of inputs that contain %put lead to the UNKNOWN node."""
+    """Exhaustive TLC runs with edge emission.  Unclaimed results of inputs that contain %put lead to the UNKNOWN node."""
+    from concurrent.futures import ThreadPoolExecutor
     g = Graph()
-    stats = {"claimed": 0, "unclaimed": {}, "alts": 0}
+    stats = {"claimed": 0, "unclaimed": {}, "alts": 0, "trunc": 0}
+    acts = {}
+    pend = []
 
     def on_edge(e):
+        pend.append(e)
+
+    def one(pc):
+        return run_tlc("MC_Expand.tla", pc[0], ctx.rundir, on_edge=on_edge, workers=2, timeout=3000, coverage=False)
+    parts = split_cfgs(ctx, cfg)
+    with ThreadPoolExecutor(len(parts)) as ex:
+        results = list(ex.map(one, parts))
+    for e in pend:
         r = e["ret"]
         if not r["claimed"]:
             stats["unclaimed"][r["why"]] = stats["unclaimed"].get(r["why"], 0) + 1
@@ -148,35 +208,45 @@ def tlc_edges(ctx, cfg):
             stats["claimed"] += 1
             if len(r["outs"]) > 1:
                 stats["alts"] += 1
+        for a in classify(e):
+            acts[a] = acts.get(a, 0) + 1
         g.add(e)
-    res = run_tlc("MC_Expand.tla", cfg, ctx.rundir, on_edge=on_edge, workers=4, timeout=3000)
-    ctx.add("states", res.distinct)
-    ctx.add("transitions", res.generated)
-    ctx.add("edges_emitted", res.edges)
-    ctx.cov.setdefault("tlc_runs", []).append({
-        "module": "MC_Expand.tla", "cfg": cfg, "distinct_states": res.distinct, "states_generated": res.generated, "depth": res.depth,
-        "edges_emitted": res.edges, "distinct_edges": g.n_edges(), "wall_s": round(res.wall, 1),
-        "inputs_claimed": stats["claimed"], "inputs_with_alternatives": stats["alts"], "inputs_unclaimed_by_reason": stats["unclaimed"],
-        "actions": {a: list(v) for a, v in sorted(res.coverage.items()) if a[:2] == "Op"}})
-    if not res.ok:
-        ctx.report("spec:%s" % cfg, "TLC reports a violated property of the specification itself: %s" % (res.violation or "")[:600],
-                   {"tlc": res.violation, "cfg": cfg})
-    unt = [a for a in OP_ACTIONS if res.coverage.get(a, (0, 0))[1] == 0]
-    if unt and res.ok:
-        raise Broken("vacuity: actions never taken in MC_Expand/%s: %s" % (cfg, unt))
-    if res.edges == 0 and res.ok:
+    ok = True
+    for (p, mine), res in zip(parts, results):
+        ctx.add("states", res.distinct)
+        ctx.add("transitions", res.generated)
+        ctx.add("edges_emitted", res.edges)
+        ctx.cov.setdefault("tlc_runs", []).append({
+            "module": "MC_Expand.tla", "cfg": cfg, "alphabets": mine, "distinct_states": res.distinct, "states_generated": res.generated,
+            "depth": res.depth, "edges_emitted": res.edges, "wall_s": round(res.wall, 1)})
+        if not res.ok:
+            ok = False
+            ctx.report("spec:%s" % cfg, "TLC reports a violated property of the specification itself: %s" % (res.violation or "")[:600],
+                       {"tlc": res.violation, "cfg": cfg, "alphabets": mine})
+    ctx.cov["edges"] = {"distinct": g.n_edges(), "store_states": len(g.nodes), "inputs_claimed": stats["claimed"],
+                        "inputs_with_alternatives": stats["alts"], "inputs_unclaimed_by_reason": stats["unclaimed"],
+                        "edges_through_action": dict(sorted(acts.items()))}
+    unt = [a for a in OP_ACTIONS if not acts.get(a)]
+    if unt and ok and not os.environ.get("C10_DEV"):
+        raise Broken("vacuity: no emitted edge of MC_Expand/%s goes through %s" % (cfg, unt))
+    if g.n_edges() == 0 and ok:
         raise Broken("no edges emitted by MC_Expand/%s" % cfg)
-    return g, res
+    return g, results[0]
 
 
 def limit_model(ctx):
-    """Design level only: the same machine with a 6-character limit, so that Truncate is model-checked at every position."""
+    """Design level only: the same machine with a 3-character limit, so that truncation is model-checked at every position;
+    run with TLC's per-action coverage (the large runs are run without -coverage, which doubles their wall time)."""
     res = run_tlc("MC_Expand.tla", "Expand_limit.cfg", ctx.rundir, workers=4, timeout=1500)
     ctx.add("states", res.distinct)
     ctx.add("transitions", res.generated)
     ctx.cov.setdefault("tlc_runs", []).append({
         "module": "MC_Expand.tla", "cfg": "Expand_limit.cfg", "distinct_states": res.distinct, "states_generated": res.generated,
-        "depth": res.depth, "wall_s": round(res.wall, 1), "purpose": "truncation at a 6-character limit (design level, not replayed)"})
+        "depth": res.depth, "wall_s": round(res.wall, 1), "purpose": "truncation at a 3-character limit, all alphabets, per-action coverage (design level, not replayed)"})
+    ctx.cov["tlc_runs"][-1]["actions"] = {a: list(v) for a, v in sorted(res.coverage.items()) if a[:2] == "Op"}
+    unt = [a for a in OP_ACTIONS if res.coverage.get(a, (0, 0))[1] == 0]
+    if unt and res.ok:
+        raise Broken("vacuity: actions never taken in MC_Expand/Expand_limit.cfg: %s" % unt)
     if not res.ok:
         ctx.report("spec:Expand_limit.cfg", "TLC reports a violated property of the specification itself: %s" % (res.violation or "")[:600],
                    {"tlc": res.violation, "cfg": "Expand_limit.cfg"})
